@@ -77,6 +77,9 @@ def run_once(base: Path, case: dict, out: Path, seed: int, shuffle: int) -> tupl
     env = dict(os.environ)
     env['PYTHONHASHSEED'] = str(seed)
     env.pop('SOURCE_DATE_EPOCH', None)
+    for k in ('http_proxy', 'HTTP_PROXY', 'https_proxy', 'HTTPS_PROXY', 'all_proxy', 'ALL_PROXY'):
+        env.pop(k, None)
+    env['NO_PROXY'] = env['no_proxy'] = '127.0.0.1,localhost'
     args = [a.replace('{SRC}', str(base)) for a in case['args']]
     t = case.get('time', 'epoch')
     if t.startswith('epoch'):
@@ -94,7 +97,7 @@ def run_once(base: Path, case: dict, out: Path, seed: int, shuffle: int) -> tupl
         return 124, 'timeout'
 
 
-def observe(out: Path, t: dict) -> dict:
+def observe(out: Path, t: dict, case: dict = {}) -> dict:
     obs = {'symlinks': {k: v[1] for k, v in t.items() if v[0] == 'l'}, 'files': len(t),
            'has_index_page': None, 'project': None}
     import re
@@ -103,6 +106,9 @@ def observe(out: Path, t: dict) -> dict:
     if page.exists():
         m = re.search(r' at (\d{4}-\d\d-\d\d \d\d:\d\d:\d\d)', page.read_text(encoding='utf-8', errors='replace'))
         obs['buildtime'] = m.group(1) if m else None
+    if case.get('inventories'):
+        obs['ext_links'] = sum(p.read_text(encoding='utf-8', errors='replace').count('http://127.0.0.1')
+                               for p in out.glob('*.html') if not p.is_symlink())
     inv = out / 'objects.inv'
     if inv.exists():
         for line in inv.read_bytes().split(b'\n')[:4]:
@@ -111,9 +117,45 @@ def observe(out: Path, t: dict) -> dict:
     return obs
 
 
+def make_inventory(project: str, lines: list) -> bytes:
+    import zlib
+    header = ('# Sphinx inventory version 2\n# Project: %s\n# Version: 1.0\n'
+              '# The rest of this file is compressed with zlib.\n' % project).encode()
+    return header + zlib.compress(''.join(l + '\n' for l in lines).encode())
+
+
+def serve_inventories(case: dict):
+    """a local HTTP server (127.0.0.1, ephemeral port) for the case's intersphinx inventories; ONE server for all runs
+    of the case so that the URLs (which end up in the pages) are the same in every run"""
+    import http.server, threading
+    data = {path: make_inventory(proj, lines) for path, (proj, lines) in case['inventories'].items()}
+
+    class Handler(http.server.BaseHTTPRequestHandler):
+        def do_GET(self):
+            body = data.get(self.path)
+            if body is None:
+                self.send_error(404)
+                return
+            self.send_response(200)
+            self.send_header('Content-Type', 'application/octet-stream')
+            self.send_header('Content-Length', str(len(body)))
+            self.end_headers()
+            self.wfile.write(body)
+
+        def log_message(self, *a):
+            pass
+    server = http.server.ThreadingHTTPServer(('127.0.0.1', 0), Handler)
+    threading.Thread(target=server.serve_forever, daemon=True).start()
+    return server, 'http://127.0.0.1:%d' % server.server_address[1]
+
+
 def run_case(arg) -> dict:
     case, seeds, keep = arg
     d = Path(tempfile.mkdtemp(prefix='verif_c18_'))
+    server = None
+    if case.get('inventories'):
+        server, base_url = serve_inventories(case)
+        case = dict(case, args=[a.replace('{INV}', base_url) for a in case['args']])
     try:
         src = d / 'src'
         outs, trees, rcs, logs = [], [], [], []
@@ -125,7 +167,7 @@ def run_case(arg) -> dict:
             rc, log = run_once(src, case, out, s, -1 if i == 0 else s)
             outs.append(out); rcs.append(rc); logs.append(log[-1500:])
             trees.append(tree(out) if out.exists() else {})
-        res = {'equal': True, 'rc': rcs, 'runs': len(seeds) + 1, 'observed': observe(outs[0], trees[0])}
+        res = {'equal': True, 'rc': rcs, 'runs': len(seeds) + 1, 'observed': observe(outs[0], trees[0], case)}
         if any(rc not in (0, 2, 3) for rc in rcs):
             res['crash'] = logs[[rc not in (0, 2, 3) for rc in rcs].index(True)]
         for i in range(1, len(seeds)):
@@ -151,6 +193,9 @@ def run_case(arg) -> dict:
                                    rc=[rcs[0], rc])
         return res
     finally:
+        if server is not None:
+            server.shutdown()
+            server.server_close()
         if not keep:
             shutil.rmtree(d, ignore_errors=True)
 
